@@ -12,7 +12,8 @@ def gen_program(rng, idx):
     """A self-contained module (compiles on its own).  Returns (text, module name)."""
     mod = "gp%d" % idx
     L = ["module %s" % mod, "  implicit none", "  integer, parameter :: wp = kind(1.0d0)",
-         "  integer, parameter :: nmax = 8", "  real(kind=wp) :: modacc"]
+         "  integer, parameter :: nmax = 8", "  real(kind=wp) :: modacc",
+         "  interface fgen", "    module procedure f_real, f_int", "  end interface fgen"]
     for nm in rng.sample(["i_1", "tmp_1", "t_1", "idx", "loop_stop", "i_out_var", "ji_el_inner", "n_1"], rng.randint(0, 3)):
         L.append("  integer :: %s" % nm)        # module names that look like the names PSyclone would invent
     L += ["contains",
@@ -29,13 +30,23 @@ def gen_program(rng, idx):
           "      x(i) = x(i) + t + tmp",
           "    end do",
           "  end subroutine helper",
+          "  function f_real(x) result(r)",
+          "    real(kind=wp), intent(in) :: x",
+          "    real(kind=wp) :: r",
+          "    r = x + 1.0_wp",
+          "  end function f_real",
+          "  function f_int(k) result(r)",
+          "    integer, intent(in) :: k",
+          "    real(kind=wp) :: r",
+          "    r = k * 2.0_wp",
+          "  end function f_int",
           "  subroutine work(a, b, c, n, m)",
           "    integer, intent(in) :: n, m",
           "    real(kind=wp), intent(inout) :: a(n), b(n), c(n, m)",
           "    integer :: i, j, tmp"]
     for nm in rng.sample(["i_1", "idx", "idx_1", "loop_start", "loop_stop", "i_out_var", "j_out_var", "tmp_1", "t_1"], rng.randint(0, 3)):
         L.append("    integer :: %s" % nm)
-    L += ["    real(kind=wp) :: t", "    t = 1.0_wp", "    tmp = n / 2"]
+    L += ["    real(kind=wp) :: t", "    t = 1.0_wp", "    tmp = n / 2", "    t = fgen(t) + fgen(tmp)"]
     stmts = [
         ["    do i = 1, n", "      a(i) = b(i) + t", "    end do"],
         ["    do j = 1, m", "      do i = 1, n", "        c(i, j) = c(i, j) * 2.0_wp + a(i)", "      end do", "    end do"],
